@@ -17,7 +17,8 @@ func init() {
 		Run: runC20,
 		Explanation: "Reverse reading and timestamp seek of query-log files, structural part. Decided: (D1) termination ('without ever looping'): every loop in the file reader and the multi-file reader has a syntactic ranking argument — a range loop, a counted loop stepping towards a loop-invariant bound, the binary search's budget counter that is incremented and tested against a constant on every cycle, or the current-file index decremented on every non-returning iteration; " +
 			"(D2) seek result classes: the probe validator reports too-early, not-found and too-late on its three index conditions and success otherwise; the binary search uses a probe line only after validation; the multi-file seek maps too-early to the next (older) file, too-late to the start of the newest file — and only too-late —, not-found to an error, and success to that file becoming the current one. " +
-			"Not decided: 'every line exactly once, in reverse order' and the position after a seek — arithmetic over runtime offsets and buffer boundaries (chunk re-read threshold, probe window).",
+			"(D3) window constants: the chunk buffer is re-read whenever fewer bytes than the 16 KiB entry limit lie between its start and the read position (unless it starts at the file start), the chunk is at least that large and the same constant is used for the seek offset, the bound test and the allocation; the probe window reaches one entry limit back and is allocated one entry limit beyond — necessary for a line shorter than the limit to lie completely inside the buffer. " +
+			"Not decided: 'every line exactly once, in reverse order' and the exact position after a seek — arithmetic over runtime offsets.",
 		RuleText:    "Natural loops from SSA dominators; four variant idioms; CFG edge guards for the result classes.",
 		Assumptions: []string{"os.File Read/Seek terminate"},
 		Trusted:     commonTrusted,
@@ -247,6 +248,142 @@ func runC20(c *Ctx) {
 		return ok && fr.Type == "querylog.qLogReader" && fr.Field == "currentFile"
 	}, gOK)
 	r.Check(nOK > 0 && nsC > 0 && len(offC) == 0, "C20-D2", "found-file-becomes-current", p.FnPos(rs), "the file in which the timestamp was found becomes the current file", "the current file is changed although the timestamp was not found in it", traceOf(p, offC)...)
+	c20Windows(c)
+}
+
+// c20Windows: D3.
+func c20Windows(c *Ctx) {
+	p, r := c.P, c.R
+	const limit = 16 * 1024 // the entry limit of the property statement
+	posConsts := func(fn *ssa.Function) (gt, sub []int64, mk []int64, phiConsts []int64) {
+		if len(fn.Params) < 2 {
+			return
+		}
+		pos := fn.Params[1]
+		for _, b := range fn.Blocks {
+			for _, in := range b.Instrs {
+				switch x := in.(type) {
+				case *ssa.BinOp:
+					if x.X != ssa.Value(pos) {
+						continue
+					}
+					if k, ok := core.ConstInt(x.Y); ok {
+						switch x.Op {
+						case token.GTR, token.GEQ:
+							gt = append(gt, k)
+						case token.SUB:
+							sub = append(sub, k)
+						}
+					}
+				case *ssa.MakeSlice:
+					if k, ok := core.ConstInt(x.Len); ok {
+						mk = append(mk, k)
+					}
+				case *ssa.Alloc:
+					// make([]byte, constant) is an array allocation in SSA
+					if pt, ok := x.Type().Underlying().(*types.Pointer); ok {
+						if at, ok := pt.Elem().Underlying().(*types.Array); ok {
+							if bt, ok := at.Elem().Underlying().(*types.Basic); ok && bt.Kind() == types.Uint8 && x.Comment == "makeslice" {
+								mk = append(mk, at.Len())
+							}
+						}
+					}
+				case *ssa.Phi:
+					for _, e := range x.Edges {
+						if k, ok := core.ConstInt(e); ok && k > 1 {
+							phiConsts = append(phiConsts, k)
+						}
+					}
+				}
+			}
+		}
+		return
+	}
+	rn := p.Fn("(*querylog.qLogFile).readNextLine")
+	if rn == nil || len(rn.Params) < 2 {
+		r.Undecided("C20-D3", "readNextLine", "-", "anchor not found")
+	} else {
+		pos := rn.Params[1]
+		var ks []int64
+		edges, n := core.CondEdges(rn, func(at core.Atom) (bool, bool) {
+			sub, ok := at.Base.(*ssa.BinOp)
+			if !ok || sub.Op != token.SUB || sub.X != ssa.Value(pos) {
+				return false, false
+			}
+			if fr, _, ok := core.LoadedField(sub.Y); !ok || fr.Field != "bufferStart" {
+				return false, false
+			}
+			k, ok := core.ConstInt(at.Other)
+			if !ok {
+				return false, false
+			}
+			switch at.Op {
+			case token.LSS:
+				ks = append(ks, k)
+				return true, true
+			case token.LEQ:
+				ks = append(ks, k+1)
+				return true, true
+			case token.GEQ:
+				ks = append(ks, k)
+				return true, false
+			case token.GTR:
+				ks = append(ks, k+1)
+				return true, false
+			}
+			return false, false
+		})
+		okK := n == 1 && len(ks) == 1 && ks[0] >= limit
+		// on that edge the buffer is re-initialised unless it already starts at the file start
+		reinit := false
+		for e := range edges {
+			zero, _ := core.CondEdges(rn, func(at core.Atom) (bool, bool) {
+				if fr, _, ok := core.LoadedField(at.Base); ok && fr.Field == "bufferStart" && (at.Op == token.EQL || at.Op == token.NEQ) {
+					if k, ok := core.ConstInt(at.Other); ok && k == 0 {
+						return true, at.Op == token.EQL
+					}
+				}
+				return false, false
+			})
+			isInit := core.IsCallTo(false, "(*querylog.qLogFile).initBuffer")
+			// every path from the edge reaches initBuffer before it touches the buffer, except through bufferStart == 0
+			found, _, _ := core.Reach(core.Query{From: []core.Point{{Block: e.From.Succs[e.Succ], Idx: 0}}, Target: func(in ssa.Instruction) bool {
+				if ia, ok := in.(*ssa.IndexAddr); ok {
+					if fr, _, ok := core.LoadedField(ia.X); ok && fr.Field == "buffer" {
+						return true
+					}
+				}
+				return false
+			}, Avoid: isInit, AvoidEdges: zero})
+			reinit = !found
+		}
+		r.Check(okK && reinit, "C20-D3", "reread-threshold-covers-entry-limit", p.FnPos(rn),
+			"the chunk is re-read whenever fewer than 16 KiB lie between the buffer start and the read position: a line below the entry limit is always completely buffered",
+			fmt.Sprintf("the chunk re-read threshold is %v bytes (need >= %d) or the re-read is skipped: a longer line crossing the chunk start is returned in two fragments", ks, limit))
+	}
+	ib := p.Fn("(*querylog.qLogFile).initBuffer")
+	if ib == nil {
+		r.Undecided("C20-D3", "initBuffer", "-", "anchor not found")
+	} else {
+		gt, sub, mk, _ := posConsts(ib)
+		ok := len(gt) == 1 && len(sub) == 1 && len(mk) == 1 && gt[0] == sub[0] && sub[0] == mk[0] && mk[0] >= 2*limit
+		r.Check(ok, "C20-D3", "chunk-constants-agree", p.FnPos(ib), "the chunk bound test, seek offset and allocation use one size of at least two entry limits",
+			fmt.Sprintf("the chunk bound test / seek offset / allocation sizes %v / %v / %v disagree or are below two entry limits", gt, sub, mk))
+	}
+	rp := p.Fn("(*querylog.qLogFile).readProbeLine")
+	if rp == nil {
+		r.Undecided("C20-D3", "readProbeLine", "-", "anchor not found")
+	} else {
+		gt, sub, mk, ph := posConsts(rp)
+		ok := len(gt) == 1 && len(sub) == 1 && len(mk) == 1 && len(ph) >= 1 && gt[0] == sub[0] && gt[0] >= limit && mk[0] >= gt[0]+limit
+		for _, k := range ph {
+			if k != gt[0] {
+				ok = false
+			}
+		}
+		r.Check(ok, "C20-D3", "probe-window-covers-entry-limit", p.FnPos(rp), "the probe window starts one entry limit before the probed position and is allocated one entry limit beyond it",
+			fmt.Sprintf("the probe window constants (bound %v, offset %v, relative position %v, allocation %v) do not cover a line of the entry limit around the probed position", gt, sub, ph, mk))
+	}
 }
 
 // errClass maps a provenance leaf to one of the seek error classes by the
